@@ -86,11 +86,27 @@ def need(draw, env):
 
 @st.composite
 def needs(draw, env, lo=1, hi=2):
-    return [draw(need(env)) for _ in range(draw(st.integers(lo, hi)))]
+    out = [draw(need(env)) for _ in range(draw(st.integers(lo, hi)))]
+    if env["prof"].get("one_marker_per_act"):
+        seen = False
+        for i, n in enumerate(out):
+            if n["kind"] in ("updated", "changed"):
+                if seen:
+                    out[i] = {"kind": "recurred", "neg": False, "op": ">=", "goal": draw(st.integers(0, 2))}
+                seen = True
+    return out
 
 
 @st.composite
 def data_act(draw, env):
+    if env["prof"].get("data_simple"):
+        kind = draw(st.sampled_from(["put", "inc", "set"]))
+        a = {"kind": kind, "ctx": draw(st.sampled_from(CTX_DATA)), "dst": draw(st.sampled_from(NUM))}
+        if kind == "inc":
+            a["val"] = draw(st.sampled_from([1, 1, 2, 0]))
+        else:
+            a["val"] = draw(st.sampled_from([0, 1, 2, 3]))
+        return a
     kind = draw(st.sampled_from(["put", "put", "inc", "inc", "copy", "set"]))
     a = {"kind": kind, "ctx": draw(st.sampled_from(CTX_DATA))}
     if draw(st.integers(0, 9)) == 0 and kind in ("put", "set"):
